@@ -20,8 +20,16 @@ def main(argv):
     if prop in ELIOT:
         import checks_eliot
         return checks_eliot.run(prop, tier)
-    print("no check for %s" % prop)
-    return 2
+    if prop == "C09":
+        import checks_parser
+        return checks_parser.run(prop, tier)
+    import importlib
+    try:
+        mod = importlib.import_module("checks_" + prop.lower())
+    except ImportError:
+        print("no check for %s" % prop)
+        return 2
+    return mod.run(prop, tier)
 
 
 if __name__ == "__main__":
